@@ -217,6 +217,9 @@ func TestVerifC17(t *testing.T) {
 	mut(func(c *ChartConfig) { c.Depth = -1 })
 	mut(func(c *ChartConfig) { c.Error = 1e-9 })
 	mut(func(c *ChartConfig) { c.Title = "title: title" })
+	// braces in text fields (the documented syntax only forbids '#' in values)
+	mut(func(c *ChartConfig) { c.Title = "Editors {all}" })
+	mut(func(c *ChartConfig) { c.Description = "counts gopls/editor:{emacs,vim} per week" })
 	var sets [][]ChartConfig
 	for _, a := range records {
 		sets = append(sets, []ChartConfig{a})
@@ -247,7 +250,13 @@ func TestVerifC17(t *testing.T) {
 							got, err = Parse([]byte(text))
 						}()
 						if err != nil {
-							res.Violate("roundtrip-rejected", fmt.Sprintf("valid rendering rejected: %v\n%s", err, text), map[string]any{"text": text})
+							sig := "roundtrip-rejected"
+							for _, c := range set {
+								if strings.ContainsAny(c.Title+c.Description+strings.Join(c.Issue, ""), "{}") && (strings.Contains(err.Error(), "'{'") || strings.Contains(err.Error(), "'}'")) {
+									sig = "roundtrip-rejected:brace-in-text-field"
+								}
+							}
+							res.Violate(sig, fmt.Sprintf("valid rendering rejected: %v\n%s", err, text), map[string]any{"text": text})
 							continue
 						}
 						if !reflect.DeepEqual(got, set) {
